@@ -31,7 +31,7 @@ Definition caller_step (s : sess) (i : nat) (veto : bool) (wr : wres) : option s
           if veto then Some (fail_call s i (set_ca c A4) StVeto)
           else Some (set_calls s (upd (calls s) i (set_ca c A2)))
       | A2 => (* write: status check *)
-          if admit (st s) false then Some (set_calls s (upd (calls s) i (set_ca c A2w)))
+          if admits (st s) false then Some (set_calls s (upd (calls s) i (set_ca c A2w)))
           else Some (fail_call s i (set_ca c A4) StConnClosed)
       | A2w => (* write lock, socket write *)
           if wr_ok s wr then
